@@ -693,6 +693,43 @@ impl RenetClient {
     }
 }
 
+/// Read-only accessors for external verification harnesses (feature `verif_hooks`).
+/// `verif_seed_counters` is the only state-setting hook and is meant for fresh connections.
+#[cfg(feature = "verif_hooks")]
+impl RenetClient {
+    /// Bytes currently accounted to the receive side of the channel.
+    pub fn verif_receive_memory(&self, channel_id: u8) -> Option<usize> {
+        if let Some(channel) = self.receive_reliable_channels.get(&channel_id) {
+            Some(channel.verif_memory_usage())
+        } else {
+            self.receive_unreliable_channels.get(&channel_id).map(|c| c.verif_memory_usage())
+        }
+    }
+
+    /// Ids of the reliable messages of the send channel that are not yet acknowledged.
+    pub fn verif_unacked(&self, channel_id: u8) -> Option<Vec<u64>> {
+        self.send_reliable_channels.get(&channel_id).map(|c| c.verif_unacked_ids())
+    }
+
+    /// The recorded set of received packet sequence numbers that will be acknowledged.
+    pub fn verif_pending_acks(&self) -> Vec<Range<u64>> {
+        self.pending_acks.clone()
+    }
+
+    /// Number of sent packets still tracked for acknowledgement.
+    pub fn verif_sent_packets_len(&self) -> usize {
+        self.sent_packets.len()
+    }
+
+    /// Sets the packet sequence counter and the next message id of every reliable send channel.
+    pub fn verif_seed_counters(&mut self, packet_sequence: u64, next_message_id: u64) {
+        self.packet_sequence = packet_sequence;
+        for channel in self.send_reliable_channels.values_mut() {
+            channel.verif_seed_next_message_id(next_message_id);
+        }
+    }
+}
+
 #[cfg(test)]
 mod tests {
     use super::*;
